@@ -18,11 +18,11 @@ EXPLANATION = (
 
 def run(ctx):
     repo = ctx.repo
-    r10a(ctx, repo)
-    r10b(ctx, repo)
+    ctx.each(r10a, ctx, repo)
+    ctx.each(r10b, ctx, repo)
     ctx.rule("R10c", "saved state wins: apply_initialization returns before the characteristic system is solved")
-    _r07b_as(ctx, repo)
-    r10d(ctx, repo)
+    ctx.each(_r07b_as, ctx, repo)
+    ctx.each(r10d, ctx, repo)
 
 
 def _r07b_as(ctx, repo):
